@@ -25,6 +25,10 @@ import (
 
 type Case struct {
 	Ops []Op `json:"ops"`
+	// APIOnly (saved witnesses only, never generated): the association keys are not
+	// looked at, so that a witness runs on to the point where the API itself shows the
+	// damage a stale or missing association does.
+	APIOnly bool `json:"api_only,omitempty"`
 }
 
 const rule = "rapid: history of <= 20 task/template API requests (create, update of script/dbrps/vars/id/template/status, enable, disable, delete; " +
@@ -183,6 +187,23 @@ var (
 	varPool  = []map[string]Var{vInt, vFloat, vExtra, vMissing, vBad}
 )
 
+var scriptNames = map[string]string{
+	sStream0: "<stream0>", sStream1: "<stream1: window+count>", sStreamD: "<streamD: dbrp \"dbx\".\"rpx\" statement>",
+	sBatchDB: "<batch FROM db.rp>", sBatchOt: "<batch FROM other.rp>", sBadMeth: "<bad: unknown method>", sBadSyn: "<bad: syntax>", sNoSrc: "<no source: var x = 1>",
+	tIntTh: "<T: var m string, var th int>", tFloatTh: "<T: var m string, var th float>", tExtra: "<T: var m string, var th int, var extra string>",
+	tWindow: "<T: var m string, var th int; window>", tDBRP: "<T: dbrp \"dbx\".\"rpx\" statement; var m string, var th int>",
+	tBatchOt: "<T: batch FROM other.rp; var m string, var th int>",
+}
+
+// scriptName abbreviates the scripts of the generator's alphabet in messages (the case
+// file holds the full text).
+func scriptName(s string) string {
+	if n, ok := scriptNames[s]; ok {
+		return n
+	}
+	return fmt.Sprintf("%q", s)
+}
+
 // ---------------------------------------------------------------- one step against the API
 
 // send performs op and reports whether the server accepted it (2xx); for create/update it
@@ -317,6 +338,11 @@ func observe(v *srv, getIDs []string) (*observed, error) {
 	if err != nil {
 		return nil, fmt.Errorf("read associations: %v", err)
 	}
+	for _, id := range allTaskIDs {
+		if _, ok := o.tasks[id]; !ok && v.s.TaskMaster.IsExecuting(id) {
+			o.ghosts = append(o.ghosts, id)
+		}
+	}
 	return o, nil
 }
 
@@ -435,7 +461,11 @@ type runner struct {
 	m     *model
 	steps []string // trace for messages
 	// the non-trivial rule
-	armed bool // an accepted rename / template update of an enabled task happened
+	apiOnly bool
+	// suspects: task ids named by an earlier request that is known to disturb the
+	// associations (only used to make the signature of a later symptom specific)
+	suspects map[string]string
+	armed    bool // an accepted rename / template update of an enabled task happened
 	// aroundSend, if set, is called right before (true) and right after (false) the
 	// request of a step is on the wire (the crash unit switches its snapshot hook)
 	aroundSend func(before bool)
@@ -476,7 +506,7 @@ func (r *runner) step(i int, op Op) bool {
 			r.fail(obsSig(err), "after restart: %v", err)
 			return false
 		}
-		if d := r.m.compare(o, true); d != nil {
+		if d := r.m.compare(o, !r.apiOnly); d != nil {
 			r.fail("restart/catalogue/"+d.kind, "after a clean restart the catalogue differs from the one before: %s", d)
 			return false
 		}
@@ -520,14 +550,15 @@ func (r *runner) step(i int, op Op) bool {
 	}
 	kind := sigKind(op)
 	r.accepted = accepted
+	r.noteSuspects(op, accepted)
 	if accepted {
 		cc.Label(opClass(op) + "/accepted")
 		if !applicable {
 			r.fail("accepted-impossible/"+kind, "request %s was answered %d although the catalogue cannot take it", op, status)
 			return false
 		}
-		if d := post.compare(o, true); d != nil {
-			r.fail(acceptedSig(kind, op, pre, post, o, d), "request %s was accepted (%d) but the catalogue is not the one it asks for: %s", op, status, d)
+		if d := post.compare(o, !r.apiOnly); d != nil {
+			r.fail(r.acceptedSig(kind, op, pre, post, o, d), "request %s was accepted (%d) but the catalogue is not the one it asks for: %s", op, status, d)
 			return false
 		}
 		post.adoptLoose(o)
@@ -541,16 +572,32 @@ func (r *runner) step(i int, op Op) bool {
 		r.noteNonTrivial(op, pre, post)
 	} else {
 		cc.Label(opClass(op) + "/rejected")
-		if d := pre.compare(o, true); d != nil {
+		if d := pre.compare(o, !r.apiOnly); d != nil {
 			// The property allows for "enabled, start did not succeed": a request whose
 			// definition was stored but whose start failed is answered 5xx by the API.
-			if applicable && post.compare(o, true) == nil && startFailed(op, post, o) {
+			if applicable && post.compare(o, !r.apiOnly) == nil && startFailed(op, post, o) {
 				cc.Label("start-failed: definition kept, answered 5xx")
 				post.adoptLoose(o)
 				r.m = post
 			} else {
 				r.fail("rejected-left-trace/"+kind+"/"+d.kind, "request %s was rejected (%d %s) but changed the catalogue: %s", op, status, errText, d)
 				return false
+			}
+		}
+	}
+	if op.K == "tupdate" && !accepted {
+		// "If an error occurs, any task that was updated to the new definition is reverted
+		// to the old definition" (client/API.md): the reverted enabled tasks have been
+		// reloaded with their stored definition - which ones is not specified
+		for _, id := range sortedKeys(r.m.tasks) {
+			t := r.m.tasks[id]
+			if t.Tmpl == op.ID && t.Assoc && t.Enabled && t.checkExecuting(o) != nil {
+				if r.m == pre {
+					r.m = pre.clone()
+					t = r.m.tasks[id]
+				}
+				t.started()
+				r.cc.Label("rolled back template update reloaded a task")
 			}
 		}
 	}
@@ -573,6 +620,23 @@ func (r *runner) step(i int, op Op) bool {
 		}
 	}
 	return true
+}
+
+func (r *runner) noteSuspects(op Op, accepted bool) {
+	if r.suspects == nil {
+		r.suspects = map[string]string{}
+	}
+	switch {
+	case op.K == "create" && op.Tmpl != "" && !accepted:
+		r.suspects[op.ID] = "after-rejected-create-from-template"
+	case op.K == "update" && !accepted && (op.NewID != "" || op.Tmpl != ""):
+		r.suspects[op.ID] = "after-rejected-rename-or-assignment"
+		if op.NewID != "" {
+			r.suspects[op.NewID] = "after-rejected-rename-or-assignment"
+		}
+	case op.K == "update" && accepted && op.Tmpl != "" && (op.NewID == "" || op.NewID == op.ID):
+		r.suspects[op.ID] = "after-template-assignment"
+	}
 }
 
 // startFailed: op (re)starts a task whose start is refused, in the post state.
@@ -630,8 +694,17 @@ func obsSig(err error) string {
 }
 
 // acceptedSig names the defect class of an accepted request with a wrong outcome.
-func acceptedSig(kind string, op Op, pre, post *model, o *observed, d *diff) string {
+func (r *runner) acceptedSig(kind string, op Op, pre, post *model, o *observed, d *diff) string {
 	if op.K == "tupdate" && strings.HasPrefix(d.kind, "task-") {
+		why := ""
+		for _, id := range sortedKeys(o.tasks) {
+			if s, ok := r.suspects[id]; ok && why == "" {
+				why = "/" + s
+			}
+		}
+		if s, ok := r.suspects[d.id]; ok {
+			why = "/" + s
+		}
 		// all-or-none: which associated tasks carry the new definition?
 		changed, kept := 0, 0
 		for _, t := range pre.tasks {
@@ -651,13 +724,13 @@ func acceptedSig(kind string, op Op, pre, post *model, o *observed, d *diff) str
 			}
 		}
 		if changed > 0 && kept > 0 {
-			return "template-update/some-tasks-changed-others-not"
+			return "template-update/some-tasks-changed-others-not" + why
 		}
 		if pt, ok := pre.tasks[d.id]; ok && !(pt.Tmpl == op.ID && pt.Assoc) {
-			return "template-update/changed-unassociated-task"
+			return "template-update/changed-unassociated-task" + why
 		}
 		if kept > 0 {
-			return "template-update/accepted-but-no-task-changed"
+			return "template-update/accepted-but-no-task-changed" + why
 		}
 	}
 	return "accepted-wrong-outcome/" + kind + "/" + d.kind
@@ -705,7 +778,7 @@ func run(c Case, cc *kit.Case) {
 		return
 	}
 	defer os.RemoveAll(dir)
-	r := &runner{cc: cc, dir: dir, m: newModel()}
+	r := &runner{cc: cc, dir: dir, m: newModel(), apiOnly: c.APIOnly}
 	if !r.start() {
 		return
 	}
@@ -728,6 +801,7 @@ var assumptions = []string{
 	"the model follows the responses: a request answered 2xx is applied, any other answer must leave the catalogue (tasks, templates, associations) unchanged; exception taken from the property text ('enabled and its start succeeded'): a request that stores an enabled task whose start is refused may be answered 5xx with the definition kept",
 	"PATCH semantics from client/API.md: only the properties present in the request change; a task assigned to a template carries the template's script; an accepted template update rewrites every associated task; deleting a template orphans its tasks",
 	"template->task associations are read from the task_store namespace through the server's own storage service; a stale or missing association counts as a violation because it is observable through the API (the next update of the template rewrites an unrelated task / skips a task created from it)",
+	"the set of executing tasks is also read from the server's TaskMaster for the pool ids the API does not show (a task executing under an id without definition); observable through the API as soon as a task is created under that id",
 	"start classes on a server without InfluxDB cluster: stream tasks always start; a batch task querying a db.rp it has no dbrp for is refused by StartBatching (enabled, not executing, error recorded); a batch task with a grant starts and dies by itself - the check waits (bound 60 s, normal < 1 ms) until its error is recorded before it compares",
 	"dbrps of a task whose template moved from a script with a dbrp statement to one without are not documented: the observed value is adopted",
 	"scripts are compared raw (script-format=raw); the script in create/update responses is compared with tick.Format of the accepted script",
